@@ -286,8 +286,17 @@ fn counted_call() {
     }
 }
 
+/// one-shot fault for the next transmission attempt of thread `tid` (set by the gate controller)
+pub static FAULT_NEXT: [std::sync::atomic::AtomicU8; 128] = [const { std::sync::atomic::AtomicU8::new(0) }; 128];
+
 fn next_fault() -> u8 {
     with_ctx(|c| {
+        if c.tid < 128 {
+            let f = FAULT_NEXT[c.tid].swap(0, Ordering::SeqCst);
+            if f != 0 {
+                return f;
+            }
+        }
         if c.next_fault < c.faults.len() {
             c.next_fault += 1;
             c.faults[c.next_fault - 1]
